@@ -432,6 +432,10 @@ void Network::broker_send(Conn& c, const std::string& bytes) {
         size_t n = bytes.size() - pos;
         if (n > 1 && c.delay_rng.chance(knobs.seg_split_p)) n = (size_t)c.delay_rng.range(1, (int64_t)n);
         ns_t at = std::max(c.b2c_next_at, w.now + latency(c));
+        if (align_next_b2c > 0 && !healed) {
+            if (align_next_b2c >= std::max(c.b2c_next_at, w.now)) { at = align_next_b2c; w.count("probe.b2c_aligned_to_timer"); }
+            align_next_b2c = 0;
+        }
         c.b2c_next_at = at;
         uint64_t ep = c.epoch;
         if (knobs.coalesce_b2c && c.b2c_tail && c.b2c_tail_at == at && c.b2c_tail_epoch == ep) {
